@@ -31,6 +31,11 @@ def expectedFront (ids : List Iri) (t : J) : J := expectedFrontJ (ids.map iriJ) 
       | none => none)
     | _, _ => some s
 
+/-- not vacuous: an `Update` that is not `f` of what was read is rejected, and so is one before anything was read -/
+example : (actorColMon id).step (some (.str "read")) (.update (.str "other")) (.ok ()) = none := by simp [actorColMon]; decide
+example : (actorColMon id).step none (.update (.str "x")) (.ok ()) = none := rfl
+example : (actorColMon id).step (some (.str "read")) (.update (.str "read")) (.ok ()) = some (some (.str "read")) := by simp [actorColMon, J.beq_self]
+
 abbrev A (f : J → J) (s : Option J) (p : Prog α) : Prop := SafeP (actorColMon f) s p (fun _ _ => True)
 
 /-- calls the monitor does not look at -/
